@@ -27,11 +27,24 @@ def baseline(props):
     for pr in props:
         if pr in BASE:
             continue
+        evd = tempfile.mkdtemp(prefix='pi2ev-')
         q = subprocess.run([os.path.join(HERE, 'check'), pr], capture_output=True, text=True, cwd=HERE,
-                           env=dict(os.environ, PI2_EVIDENCE_DIR=tempfile.mkdtemp(prefix='pi2ev-')))
+                           env=dict(os.environ, PI2_EVIDENCE_DIR=evd))
         m = _re.search(r'obligations=(\d+) failing=(\d+) known=(\d+) declined=(\d+)', q.stdout)
         if m:
-            BASE[pr] = (int(m.group(1)), int(m.group(4)))
+            BASE[pr] = (int(m.group(1)), int(m.group(4)), per_rule(os.path.join(evd, pr + '.json')))
+        shutil.rmtree(evd, ignore_errors=True)
+
+
+def per_rule(path):
+    try:
+        return json.load(open(path))['coverage'].get('per_rule', {})
+    except (OSError, ValueError, KeyError):
+        return {}
+
+
+def _count(v):
+    return v.get('obligations', v.get('n', 0)) if isinstance(v, dict) else (v if isinstance(v, int) else 0)
 
 
 def scratch_copy():
@@ -75,7 +88,9 @@ def run_seed(name, props_override=None, all_props=False):
             import re as _re
             m = _re.search(r'obligations=(\d+) failing=(\d+) known=(\d+) declined=(\d+)', q.stdout)
             if m and BASE.get(pr) and (int(m.group(1)) < BASE[pr][0] or int(m.group(4)) > BASE[pr][1]):
-                lines.append(f'WEAKER: obligations {BASE[pr][0]} -> {m.group(1)}, declined {BASE[pr][1]} -> {m.group(4)} (fewer facts decided than on the unchanged tree)')
+                now = per_rule(os.path.join(d, '_ev', pr + '.json'))
+                diff = {k: (_count(v), _count(now.get(k, 0))) for k, v in BASE[pr][2].items() if _count(now.get(k, 0)) < _count(v)}
+                lines.append(f'WEAKER: obligations {BASE[pr][0]} -> {m.group(1)}, declined {BASE[pr][1]} -> {m.group(4)}; per rule {diff}')
             res[pr] = (q.returncode, lines[:4])
     finally:
         shutil.rmtree(d, ignore_errors=True)
